@@ -123,6 +123,14 @@ def _axes_covered(fi: FuncInfo, cs: List[Cond], tol: str, scale: bool) -> Set[in
     return cov
 
 
+def _linear_known(fi: FuncInfo, e: ast.AST, p: bool) -> bool:
+    """Path condition (e has truth value p) that says the pixel transform is linear: `tr.linear is not None` true,
+    `tr.linear is None` false - also through a local that holds that test (`is_linear = tr.linear is not None`)."""
+    if isinstance(e, ast.Name):
+        e = expand_locals(fi.node, e, depth=2)
+    return isinstance(e, ast.Compare) and "linear" in short(e) and ((isinstance(e.ops[0], ast.Is) and not p) or (isinstance(e.ops[0], ast.IsNot) and p))
+
+
 def paste_eligibility(prog: Program) -> List[Instance]:
     """C10: paste is reported only behind all four eligibility guards and only on the linear branch."""
     out: List[Instance] = []
@@ -172,7 +180,7 @@ def paste_eligibility(prog: Program) -> List[Instance]:
         out.append(Instance("R-GUARDSEQ", f"{crr.qual}#paste:results", UNDET, f"expected two ReprojectInfo results, found {len(rets)}", crr.where()))
     for r in rets:
         pv = next((k.value for k in r.value.keywords if k.arg == "paste_ok"), None)
-        linear = any(isinstance(e, ast.Compare) and "linear" in short(e) and ((isinstance(e.ops[0], ast.Is) and not p) or (isinstance(e.ops[0], ast.IsNot) and p)) for e, p in conds_at(cond2, r))
+        linear = any(_linear_known(crr, e, p) for e, p in conds_at(cond2, r))
         branch = "linear" if linear else "nonlinear"
         cid = f"{crr.qual}#paste:result:{branch}"
         if pv is None:
@@ -180,6 +188,12 @@ def paste_eligibility(prog: Program) -> List[Instance]:
             continue
         if not linear:
             ok = isinstance(pv, ast.Constant) and pv.value is False
+            if not ok and isinstance(pv, ast.Name):
+                # one shared return for both branches: every definition reaching it on this path must be False
+                dd = rd.reaching(r, pv.id)
+                if dd and len(rets) == 1:
+                    out.append(Instance("R-GUARDSEQ", cid, UNDET, "both branches share one ReprojectInfo(...) return: the cross-CRS value of paste_ok is not separated by path here", crr.where(r)))
+                    continue
             out.append(Instance("R-GUARDSEQ", cid, OK if ok else BAD,
                                 "cross-CRS branch always reports paste_ok=False" if ok else f"cross-CRS branch reports paste_ok=`{short(pv)}`", crr.where(r)))
             continue
@@ -196,13 +210,15 @@ def paste_eligibility(prog: Program) -> List[Instance]:
             first = kind.startswith("unpack[0/")
             if isinstance(val, ast.Subscript) and const_num(val.slice) == 0:
                 call, first = val.value, True
+            if isinstance(val, ast.Attribute) and val.attr in ("ok", "paste_ok", "can_paste") and isinstance(val.value, ast.Call):
+                call, first = val.value, True  # the verdict as a named field of the result record
             if not (isinstance(call, ast.Call) and cp in prog.resolve_call(call, crr)):
                 return False
             n_cp += 1
             if not first:
                 bad.append(f"{short(st)} (takes the wrong element of _can_paste's result)")
             cs = conds_at(cond2, st) if st is not None else []
-            lin = any(isinstance(e, ast.Compare) and "linear" in short(e) and ((isinstance(e.ops[0], ast.Is) and not p) or (isinstance(e.ops[0], ast.IsNot) and p)) for e, p in cs)
+            lin = any(_linear_known(crr, e, p) for e, p in cs)
             if not lin:
                 bad.append(f"{short(st)} (not restricted to the same-CRS branch)")
             splat = [k.value for k in call.keywords if k.arg is None]
@@ -554,7 +570,7 @@ def finite_filter(prog: Program) -> List[Instance]:
         t0, thi = ty.tag(c.args[0]), ty.tag(c.args[2])
         seen.append((short(c.args[0]), const_num(c.args[1]), short(c.args[2]), t0, thi))
     ok = len(seen) == 2 and all(lo == 0 and t0 is not None and t0 == thi for _, lo, _, t0, thi in seen) and {t0 for *_, t0, _ in seen} == {"X", "Y"}
-    if not ok and (not seen or any(t0 is None and thi is None for *_, t0, thi in seen)):
+    if not ok and (not seen or any(t0 is None for *_, t0, thi in seen)):
         out.append(Instance("R-GUARDSEQ", f"{f.qual}#finite:clip-to-image", UNDET, f"the final clip is not written as one clip per axis over axis-named values ({[(a, lo, hi) for a, lo, hi, *_ in seen]}): not read", f.where()))
     else:
       out.append(Instance("R-GUARDSEQ", f"{f.qual}#finite:clip-to-image", OK if ok else BAD,
